@@ -342,7 +342,7 @@ def c15_cases(tier, ds):
             c['steps'].append(['mut', 'todir', 'cache.gz', None, None])
             name = 'n'
         else:
-            name = 'other'
+            name = rng.choice(['other', '', ' ', 'N', 'n ', 'nn', 'n\n'])
         c['steps'].append(rng.choice([['build', name, gen.enc_simple({}), 0, gen.enc_simple(0)],
                                       ['clean', name], ['clean', name if how == 'name' else None]]))
         c['steps'].append(['build', name, gen.enc_simple({}), 0, gen.enc_simple(0)])
@@ -396,6 +396,9 @@ def wrong_argument_calls(rep):
             ('clean cache path int', lambda: FB.clean(5, 'n')),
             ('clean other name', lambda: FB.clean(cache, 'zzz')),
             ('build other name', lambda: FB.build(cache, 'zzz', good)),
+            ('build empty name', lambda: FB.build(cache, '', good)),
+            ('clean empty name', lambda: FB.clean(cache, '')),
+            ('build_versioned empty name', lambda: FB.build_versioned(cache, '', {}, good)),
         ]
         for label, call in calls:
             before = realrun.snapshot(root, '<none>')
